@@ -44,6 +44,9 @@ def build_message(tpl, v0, v1, d0, d1, d2):
     if tpl == 'post_chA':
         return REQ, (b'POST / HTTP/1.1\r\nTransfer-Encoding: chunked\r\n\r\nA\r\n' + B(d0, d1, d2) +
                      b'3456789\r\n0\r\n\r\n')
+    if tpl == 'pp_get':
+        # HAProxy PROXY protocol v1 line ahead of the request (parser created with enable_proxy_protocol)
+        return REQ, b'PROXY TCP4 1.2.3.4 5.6.7.8 11 22\r\nGET /' + B(v0) + b' HTTP/1.1\r\nHost: ' + B(v1) + b'\r\n\r\n'
     if tpl == 'res_line':
         return RES, b'HTTP/1.1 200 OK\r\n\r\n'
     if tpl == 'res_cl2':
@@ -56,15 +59,22 @@ def build_message(tpl, v0, v1, d0, d1, d2):
     raise ValueError(tpl)
 
 
-NO_TRAIL = ('get', 'connect', 'res_line')
+NO_TRAIL = ('get', 'connect', 'res_line', 'pp_get')
+
+
+def _new_parser(tpl, ptype):
+    if tpl.startswith('pp_'):
+        return HttpParser(ptype, enable_proxy_protocol=1)
+    return HttpParser(ptype)
 
 
 def observe(p):
     hs = None
     if p.headers is not None:
         hs = sorted((k, v[0], v[1]) for k, v in p.headers.items())
+    pp = None if p.protocol is None else (p.protocol.version, p.protocol.family, p.protocol.source, p.protocol.destination)
     return (p.state, p.method, p.host, p.port, p.path, p.version, p.code, p.reason, hs, p.body,
-            b'' if p.buffer is None else p.buffer.tobytes())
+            b'' if p.buffer is None else p.buffer.tobytes(), pp)
 
 
 def parser_split(v0: int, v1: int, d0: int, d1: int, d2: int, t0: int, t1: int) -> bool:
@@ -78,7 +88,7 @@ def parser_split(v0: int, v1: int, d0: int, d1: int, d2: int, t0: int, t1: int) 
     tpl = CFG['tpl']
     ntrail = CFG['ntrail']
     cuts = CFG['cuts']            # sorted cut positions, 0 < c < len(M+T); [] = byte-at-a-time if 'bytewise'
-    if tpl == 'get' and (v0 == 63 or v0 == 35):
+    if tpl in ('get', 'pp_get') and (v0 == 63 or v0 == 35):
         return skip()
     if tpl == 'connect' and not (97 <= v0 <= 122 or 48 <= v0 <= 57):
         return skip()   # host byte must be a reg-name character (URL grammar is C14's subject)
@@ -96,12 +106,12 @@ def parser_split(v0: int, v1: int, d0: int, d1: int, d2: int, t0: int, t1: int) 
         pieces.append(data[prev:c])
         prev = c
     pieces.append(data[prev:])
-    whole = HttpParser(ptype)
+    whole = _new_parser(tpl, ptype)
     try:
         whole.parse(memoryview(data))
     except Exception as e:
         return fail('whole-feed raised', exc=repr(e))
-    split = HttpParser(ptype)
+    split = _new_parser(tpl, ptype)
     fed = 0
     for piece in pieces:
         try:
@@ -197,7 +207,7 @@ def chunk_split(d0: int, d1: int, d2: int, t0: int, t1: int) -> bool:
 def obligations(tier):
     obs = []
     lens = {}
-    for tpl in ('get', 'connect', 'post_cl1', 'post_cl3', 'post_ch1', 'post_ch21', 'post_ch0', 'post_chA',
+    for tpl in ('get', 'connect', 'pp_get', 'post_cl1', 'post_cl3', 'post_ch1', 'post_ch21', 'post_ch0', 'post_chA',
                 'res_line', 'res_cl2', 'res_ch1', 'res_ch21', 'res_ch1_ext_tr'):
         _, M = build_message(tpl, 65, 66, 1, 2, 3)
         lens[tpl] = len(M)
@@ -237,7 +247,7 @@ def obligations(tier):
 
 META = {
     'bounds': {
-        'quick': 'templates: 13 request/response messages (GET, CONNECT, POST CL 1/3, POST chunked [1],[2,1],[],[10], '
+        'quick': 'templates: 14 request/response messages (GET, CONNECT, GET behind a PROXY-protocol v1 line, POST CL 1/3, POST chunked [1],[2,1],[],[10], '
                  'status-line-only response, response CL 2, chunked [1],[2,1], chunked with extensions+trailer) with 2 symbolic '
                  'header-value bytes, 3 symbolic body bytes, 0..2 symbolic trailing bytes; every single cut position and the '
                  'one-byte-per-piece feed; ChunkParser alone on 9 chunk layouts (sizes 0..3, 10, 11; extensions; trailer; hex case)',
